@@ -318,6 +318,8 @@ def _collate(prop, tier, a, items, results, t0):
             kf = _match_known(prop, name, f.get("clause"), known)
             if kf:
                 known_lines.append(f"KNOWN-FINDING: property={prop} {kf['text']}")
+                if eng in ('R', 'P') and st != 'proved':
+                    n_deductive -= 1
             else:
                 path = _write_replay(prop, name, out, f.get("clause"), f.get("detail"), f.get("inputs"), "failing-input")
                 violations.append((name, path, False))
@@ -328,6 +330,7 @@ def _collate(prop, tier, a, items, results, t0):
             kf = _match_known(prop, name, None, known)
             if kf:
                 known_lines.append(f"KNOWN-FINDING: property={prop} {kf['text']}")
+                n_deductive -= 1          # a listed finding is reported separately, not as an open obligation
                 continue
             confirmed = _confirm_native(prop, items, name, out)
             if confirmed:
